@@ -7,7 +7,8 @@ ALL = ['C%02d' % i for i in range(1, 21)]
 checks, na = [], []
 for pid in ALL:
     p = os.path.join(ROOT, 'props', pid.lower() + '.py')
-    if not os.path.exists(p):
+    ready = [l.strip() for l in open(os.path.join(ROOT, 'ready.txt')) if l.strip()]
+    if not os.path.exists(p) or pid not in ready:
         na.append({'property_id': pid, 'reason': 'not yet built in this revision of /verif (planned: DESIGN.md section 6 %s); no check is claimed until model, theorems and correspondence exist' % pid})
         continue
     P = importlib.import_module('props.' + pid.lower())
